@@ -364,7 +364,7 @@ pub fn run(ctx: &mut Ctx) {
         run::end_case();
     });
     // spawns from short-lived threads: the thread exits (TLS destructors run), then the parent's streams are re-checked
-    let nthr = ctx.n(60, 600);
+    let nthr = ctx.n(320, 1200);
     ctx.family("threads", nthr, |ctx, rng, i| {
         // combinations that touch the inherited streams through Merge, and a few others
         let merges: [[usize; 3]; 8] = [[0, 0, 4], [0, 4, 0], [1, 0, 4], [0, 4, 1], [2, 0, 4], [0, 4, 3], [0, 1, 4], [0, 4, 2]];
